@@ -58,6 +58,11 @@ def ev(e, env, enums=None):
         if key in env:
             return env[key]
         raise Unknown("member %s" % key)
+    if k == "Index":
+        key = ir.show(e)
+        if key in env:
+            return env[key]
+        raise Unknown("element %s" % key)
     if k == "Cast":
         v = ev(e["e"], env, enums)
         return wrap(v, e.get("t"), enums)
